@@ -125,12 +125,12 @@ Theorem C09_charAt_generic : forall m r args u,
 Proof. exact charAt_call_refines. Qed.
 Print Assumptions C09_charAt_generic.
 
-(* lastIndexOf on ASCII strings: every position except NaN and -Infinity (open finding
-   C09-lastindexof-position), 2^63 and beyond included (after 27b5748) *)
+(* lastIndexOf on ASCII strings: every position argument - NaN (counts as +Infinity), both
+   infinities, 2^63 and beyond (after 27b5748 and ea386ab) *)
 Theorem C09_lastIndexOf_refines_ascii : forall s t nargs a1 b, ascii s -> ascii t -> zlen s < 2 ^ 62 ->
   (2 <= nargs)%nat -> a1 <> AUndef -> to_number a1 = Some b ->
-  is_nan_bits b = false -> to_integer_bits b <> NInf ->
-  m_lastIndexOf s t nargs a1 = Some (VInt (lastIndexOf s t (to_integer_bits b))).
+  m_lastIndexOf s t nargs a1 =
+  Some (VInt (lastIndexOf s t (if is_nan_bits b then PInf else to_integer_bits b))).
 Proof. exact lastIndexOf_refines_ascii. Qed.
 Print Assumptions C09_lastIndexOf_refines_ascii.
 
@@ -267,18 +267,6 @@ Proof. vm_compute. split; [reflexivity|discriminate]. Qed.
 Print Assumptions C09_undefined_this_refuted.
 
 (* positions *)
-Theorem C09_lastIndexOf_nan_refuted :    (* "abcabc".lastIndexOf("c", NaN): -1 instead of 5 *)
-  exists s t, call_model MLastIndexOf (RLit s) [AStr t; ANum nan_bits] = Some (VInt (-1)) /\
-              call_spec MLastIndexOf (RLit s) [AStr t; ANum nan_bits] = Some (VInt 5).
-Proof. exists [97; 98; 99; 97; 98; 99], [99]. vm_compute. split; reflexivity. Qed.
-Print Assumptions C09_lastIndexOf_nan_refuted.
-
-Theorem C09_lastIndexOf_neginf_refuted : (* "aba".lastIndexOf("a", -Infinity): 2 instead of 0 *)
-  exists s t, call_model MLastIndexOf (RLit s) [AStr t; ANum ninf_bits] = Some (VInt 2) /\
-              call_spec MLastIndexOf (RLit s) [AStr t; ANum ninf_bits] = Some (VInt 0).
-Proof. exists [97; 98; 97], [97]. vm_compute. split; reflexivity. Qed.
-Print Assumptions C09_lastIndexOf_neginf_refuted.
-
 (* ---------- order of argument conversions ---------- *)
 
 (* otto converts the arguments in the ES5 step order for every method except the two early
@@ -384,10 +372,11 @@ Proof. split; [repeat (constructor; [reflexivity|]); constructor | reflexivity].
 Example C09_charAt_generic_hyp_met : this_string (RNumR 5) = Some [53] /\ RNumR 5 <> RUndef /\
   call_model MCharAt (RNumR 5) [n 0] = Some (VStr [53]).
 Proof. repeat split; discriminate. Qed.
-Example C09_lastIndexOf_hyp_met : to_number (n (2 ^ 63)) = Some (encode_int_or_nan (2 ^ 63)) /\
-  is_nan_bits (encode_int_or_nan (2 ^ 63)) = false /\ to_integer_bits (encode_int_or_nan (2 ^ 63)) <> NInf /\
+Example C09_lastIndexOf_hyp_met : to_number (ANum nan_bits) = Some nan_bits /\
+  call_model MLastIndexOf (RLit [97; 98; 99; 97; 98; 99]) [AStr [99]; ANum nan_bits] = Some (VInt 5) /\
+  call_model MLastIndexOf (RLit [97; 98; 97]) [AStr [97]; ANum ninf_bits] = Some (VInt 0) /\
   call_model MLastIndexOf (RLit [97; 98; 99]) [AStr [99]; n (2 ^ 63)] = Some (VInt 2).
-Proof. vm_compute. repeat split; discriminate. Qed.
+Proof. vm_compute. repeat split. Qed.
 Example C09_index_fffd_met : bmp_clean [65533; 97] /\ m_index (dec16 [65533; 97]) [48] = VStr [65533].
 Proof. split; [repeat constructor; cbv; discriminate | vm_compute; reflexivity]. Qed.
 Example C09_index_name_hyp_met : string_to_array_index [49; 50] = 12 /\ string_to_array_index [48; 49] = -1.
